@@ -33,6 +33,11 @@ namespace Dune{
       Buffer(V&& t)
         : value(std::make_unique<T>(std::forward<V>(t)))
       {}
+      // payload constructor that cannot be mistaken for Buffer(bool valid) when T is bool
+      template<class V>
+      Buffer(std::in_place_t, V&& t)
+        : value(std::make_unique<T>(std::forward<V>(t)))
+      {}
       std::unique_ptr<T> value;
       T get(){
         T tmp = std::move(*value);
@@ -56,6 +61,11 @@ namespace Dune{
       }
       template<class V>
       Buffer(V&& t)
+        : value(std::forward<V>(t))
+      {}
+      // payload constructor that cannot be mistaken for Buffer(bool valid) when T is bool
+      template<class V>
+      Buffer(std::in_place_t, V&& t)
         : value(std::forward<V>(t))
       {}
       std::optional<std::reference_wrapper<T>> value;
@@ -99,7 +109,14 @@ namespace Dune{
     impl::Buffer<S> send_data_;
     friend class Communication<MPI_Comm>;
   public:
-    MPIFuture(bool valid = false)
+    MPIFuture()
+      : req_(MPI_REQUEST_NULL)
+      , data_(false)
+    {}
+
+    // For R = bool the argument of a one-argument constructor is the payload, not the validity flag
+    template<class V = R, std::enable_if_t<!std::is_same<std::decay_t<V>, bool>::value, int> = 0>
+    MPIFuture(bool valid)
       : req_(MPI_REQUEST_NULL)
       , data_(valid)
     {}
@@ -108,15 +125,15 @@ namespace Dune{
     template<class V = R, class U = S>
     MPIFuture(V&& recv_data, U&& send_data, typename std::enable_if_t<!std::is_void<V>::value && !std::is_void<U>::value>* = 0) :
       req_(MPI_REQUEST_NULL)
-      , data_(std::forward<R>(recv_data))
-      , send_data_(std::forward<S>(send_data))
+      , data_(std::in_place, std::forward<R>(recv_data))
+      , send_data_(std::in_place, std::forward<S>(send_data))
     {}
 
     // hide this constructor if R is void
     template<class V = R>
     MPIFuture(V&& recv_data, typename std::enable_if_t<!std::is_void<V>::value>* = 0)
       : req_(MPI_REQUEST_NULL)
-      , data_(std::forward<V>(recv_data))
+      , data_(std::in_place, std::forward<V>(recv_data))
     {}
 
     ~MPIFuture() {
